@@ -686,7 +686,7 @@ fn c05_inner(cx: &mut Cx, net: &RealNet, n: usize) -> Option<()> {
         }
         for (i, a) in assign.iter().enumerate() {
             if let Some(ver) = a {
-                if let Err(e) = net.seed_local(i, gen::record(v.key.clone(), v.bytes[*ver].clone())) {
+                if let Err(e) = net.seed_raw(i, gen::record(v.key.clone(), v.bytes[*ver].clone())) {
                     cx.count("realnet:abandoned:harness-error");
                     cx.log(e);
                     return None;
@@ -1321,5 +1321,310 @@ fn c04_inner(cx: &mut Cx, net: &RealNet, n: usize) -> Option<()> {
     }
     cx.nontrivial(&("c04-realnet", cx.index, n, ups.iter().map(|u| u.label).collect::<Vec<_>>()));
     cx.sample(json!({"lane": "real network", "nodes": n, "presented": ups.iter().map(|u| format!("{:?}:{}", u.kind, u.label)).collect::<Vec<_>>()}));
+    Some(())
+}
+
+fn put_chunks_paid(cx: &mut Cx, net: &RealNet, chunks: &[ant_protocol::storage::Chunk], stranger: &Keypair) -> Option<()> {
+    let n = net.nodes.len();
+    let mut batch = vec![];
+    let mut targets = vec![];
+    for c in chunks {
+        let key = NetworkAddress::from_chunk_address(*c.address()).to_record_key();
+        let target = net.by_closeness(&key)[0];
+        let env = PayEnv { node_kp: net.nodes[target].kp.clone(), close: (0..n).filter(|j| *j != target).map(|j| net.nodes[j].kp.clone()).collect(), stranger: stranger.clone() };
+        let proof = build_proof(&mut cx.rng, &env, *c.name(), 3, Conds::all(), &net.stub);
+        let rec = gen::record(key.clone(), try_serialize_record(&(proof, c.clone()), RecordKind::ChunkWithPayment).expect("ser").to_vec());
+        batch.push((rec, net.nodes[target].peer));
+        targets.push((target, key));
+    }
+    let client = net.client.clone();
+    let results: Vec<Result<(), String>> = net.ctl.block_on(async move {
+        let mut out = vec![];
+        // a handful at a time, as the real uploader does
+        for group in batch.chunks(8) {
+            let mut hs = vec![];
+            for (rec, peer) in group.iter().cloned() {
+                let c = client.clone();
+                hs.push(tokio::spawn(async move {
+                    let cfg = ant_networking::PutRecordCfg { put_quorum: Quorum::One, retry_strategy: None, use_put_record_to: Some(vec![peer]), verification: None };
+                    match tokio::time::timeout(crate::e2e::OP_TIMEOUT, c.put_record(rec, &cfg)).await {
+                        Ok(r) => r.map_err(|e| format!("{e:?}")),
+                        Err(_) => Err("WATCHDOG".into()),
+                    }
+                }));
+            }
+            for h in hs {
+                out.push(h.await.unwrap_or_else(|e| Err(format!("join: {e}"))));
+            }
+        }
+        out
+    });
+    if results.iter().any(|r| r.is_err()) {
+        cx.count("realnet:abandoned:put-failed");
+        return None;
+    }
+    for (t, key) in targets {
+        match wait_held(net, t, &key) {
+            Ok(true) => {}
+            Ok(false) => {
+                cx.count("realnet:abandoned:upload-not-visible-at-its-target");
+                return None;
+            }
+            Err(e) => {
+                cx.count("realnet:abandoned:harness-error");
+                cx.log(e);
+                return None;
+            }
+        }
+    }
+    Some(())
+}
+
+/// C14 on the real network: the chunks the real `encrypt` produces are uploaded (paid) to real nodes and read back by
+/// a real Client through real kad queries. With `substitute`, afterwards one data chunk is replaced on every holder by
+/// another chunk's bytes (C15): the read must fail rather than return other bytes.
+pub fn c14_case(cx: &mut Cx) {
+    client_data_case(cx, false)
+}
+pub fn c15_case(cx: &mut Cx) {
+    if cx.index % 2 == 0 {
+        client_data_case(cx, true)
+    } else {
+        vault_case(cx)
+    }
+}
+
+fn client_data_case(cx: &mut Cx, substitute: bool) {
+    let n = cx.rng.gen_range(5..=7);
+    let Some(net) = start(cx, if substitute { "c15r" } else { "c14r" }, &vec![true; n]) else { return };
+    if client_data_inner(cx, &net, n, substitute).is_none() {
+        cx.count("realnet:cases-abandoned");
+    }
+    net.shutdown();
+}
+
+fn client_data_inner(cx: &mut Cx, net: &RealNet, n: usize, substitute: bool) -> Option<()> {
+    use bytes::Bytes;
+    let stranger = gen::ed_keypair(&mut cx.rng);
+    let max: usize = *self_encryption::MAX_CHUNK_SIZE;
+    // sizes: small builds (1 KiB chunks) reach several data-map levels with a few hundred KiB
+    let len = if max <= 4096 { *[3usize, 700, 3 * max, 3 * max + 1, 40 * max, 150 * max + 17, cx.rng.gen_range(3..200 * max)].choose(&mut cx.rng).expect("nonempty") } else { *[3usize, 4096, 100_000, cx.rng.gen_range(3..600_000), 3 * max + 1].choose(&mut cx.rng).expect("nonempty") };
+    let data = gen::bytes(&mut cx.rng, len);
+    let (map_chunk, mut chunks) = match autonomi::self_encryption::encrypt(Bytes::from(data.clone())) {
+        Ok(x) => x,
+        Err(e) => {
+            cx.count("realnet:encrypt-refused");
+            cx.log(format!("{e:?}"));
+            return Some(());
+        }
+    };
+    chunks.push(map_chunk.clone());
+    cx.count_n("realnet:chunks-uploaded", chunks.len() as u64);
+    put_chunks_paid(cx, net, &chunks, &stranger)?;
+    settle(cx, net)?;
+    let client = autonomi::Client::verif_new(net.client.clone(), net.stub.evm_network());
+    let addr = *map_chunk.address().xorname();
+    let c2 = client.clone();
+    let got = net.ctl.block_on(async move { tokio::time::timeout(Duration::from_secs(180), c2.data_get_public(addr)).await });
+    cx.eval();
+    let w = json!({"nodes": n, "bytes": len, "chunks": chunks.len(), "max_chunk_size": max});
+    match got {
+        Err(_) => {
+            cx.count("realnet:abandoned:read-watchdog");
+            return None;
+        }
+        Ok(Ok(b)) => {
+            if b.as_ref() != data.as_slice() {
+                cx.violation("realnet:round-trip-mangled", format!("{} bytes came back for {} uploaded", b.len(), len), w.clone());
+            } else {
+                cx.count("realnet:round-trips-ok");
+            }
+        }
+        Ok(Err(e)) => {
+            // every chunk was visible at its payee before the read started: three failures in a row are judged
+            let mut failures = 1;
+            let mut last = format!("{e:?}");
+            for _ in 0..2 {
+                settle(cx, net)?;
+                let c3 = client.clone();
+                match net.ctl.block_on(async move { tokio::time::timeout(Duration::from_secs(180), c3.data_get_public(addr)).await }) {
+                    Ok(Ok(b)) if b.as_ref() == data.as_slice() => break,
+                    Ok(Ok(_)) => {
+                        cx.violation("realnet:round-trip-mangled", "a retry returned other bytes".to_string(), w.clone());
+                        break;
+                    }
+                    Ok(Err(e)) => {
+                        failures += 1;
+                        last = format!("{e:?}");
+                    }
+                    Err(_) => {
+                        cx.count("realnet:abandoned:read-watchdog");
+                        return None;
+                    }
+                }
+            }
+            if failures >= 3 {
+                cx.violation("realnet:round-trip-failed", format!("three reads in a row failed although every chunk is held by the node it was paid to: {last}"), w.clone());
+            } else {
+                cx.count("realnet:round-trips-ok-after-retry");
+            }
+        }
+    }
+    cx.nontrivial(&("client-data-realnet", cx.index, n, len, substitute));
+    if substitute && chunks.len() >= 2 {
+        // one chunk's bytes are replaced, on every node that holds it, by another chunk of the same upload
+        let vi = cx.rng.gen_range(0..chunks.len());
+        let oi = (vi + 1 + cx.rng.gen_range(0..chunks.len() - 1)) % chunks.len();
+        let vkey = NetworkAddress::from_chunk_address(*chunks[vi].address()).to_record_key();
+        let forged = gen::record(vkey.clone(), gen::chunk_record(&chunks[oi]).value);
+        let mut replaced = 0;
+        for i in 0..n {
+            match net.local(i, &vkey) {
+                Ok(Some(_)) => {
+                    if let Err(e) = net.seed_local(i, forged.clone()) {
+                        cx.count("realnet:abandoned:harness-error");
+                        cx.log(e);
+                        return None;
+                    }
+                    replaced += 1;
+                }
+                Ok(None) => {}
+                Err(e) => {
+                    cx.count("realnet:abandoned:harness-error");
+                    cx.log(e);
+                    return None;
+                }
+            }
+        }
+        cx.count_n("realnet:holders-serving-substituted-content", replaced);
+        let (c4, vaddr) = (client.clone(), *chunks[vi].address().xorname());
+        let got = net.ctl.block_on(async move { tokio::time::timeout(Duration::from_secs(120), c4.chunk_get(vaddr)).await });
+        cx.eval();
+        match got {
+            Ok(Ok(c)) => {
+                if c.value() != chunks[vi].value() {
+                    cx.violation("realnet:chunk_get-returned-content-not-hashing-to-address", format!("every holder serves another chunk's bytes under the address; chunk_get returned {} bytes that do not hash to it", c.value().len()), w.clone());
+                }
+            }
+            Ok(Err(_)) => cx.count("realnet:substituted-chunk-refused"),
+            Err(_) => cx.count("realnet:abandoned:read-watchdog"),
+        }
+        let c5 = client.clone();
+        let got = net.ctl.block_on(async move { tokio::time::timeout(Duration::from_secs(180), c5.data_get_public(addr)).await });
+        cx.eval();
+        match got {
+            Ok(Ok(b)) if b.as_ref() != data.as_slice() => cx.violation("realnet:data-returned-with-a-substituted-chunk", format!("{} bytes returned, not the uploaded ones", b.len()), w.clone()),
+            Ok(Ok(_)) => cx.count("realnet:data-read-correct-despite-substitution"),
+            Ok(Err(_)) => cx.count("realnet:substituted-data-refused"),
+            Err(_) => cx.count("realnet:abandoned:read-watchdog"),
+        }
+    }
+    cx.sample(json!({"lane": "real network", "nodes": n, "bytes": len, "chunks": chunks.len(), "substitution": substitute}));
+    Some(())
+}
+
+/// C15 on the real network: holders without a Node layer serve whatever scratchpads the harness put there; the real
+/// Client reads the vault through the real kad query.
+fn vault_case(cx: &mut Cx) {
+    let n = cx.rng.gen_range(5..=8);
+    let Some(net) = start(cx, "c15v", &vec![false; n]) else { return };
+    for _ in 0..cx.rng.gen_range(4..=7) {
+        if vault_inner(cx, &net, n).is_none() {
+            cx.count("realnet:cases-abandoned");
+            break;
+        }
+    }
+    net.shutdown();
+}
+
+fn vault_inner(cx: &mut Cx, net: &RealNet, n: usize) -> Option<()> {
+    let owner = gen::bls_sk(&mut cx.rng);
+    let foreign = gen::bls_sk(&mut cx.rng);
+    let key = NetworkAddress::from_scratchpad_address(ant_protocol::storage::ScratchpadAddress::new(owner.public_key())).to_record_key();
+    #[derive(Clone, Copy, Debug, PartialEq)]
+    enum Class {
+        Authentic,
+        Unsigned,
+        BadSignature,
+        ForeignOwner,
+        Garbage,
+    }
+    let nver = cx.rng.gen_range(1..=4);
+    let honest_only = cx.rng.gen_bool(0.2);
+    let none_authentic = !honest_only && cx.rng.gen_bool(0.35);
+    let mut versions: Vec<(Class, u64, Vec<u8>, Vec<u8>)> = vec![];
+    let base: u64 = cx.rng.gen_range(0..20);
+    for i in 0..nver {
+        let class = if honest_only {
+            Class::Authentic
+        } else if none_authentic {
+            *[Class::Unsigned, Class::BadSignature, Class::ForeignOwner, Class::Garbage].choose(&mut cx.rng).expect("nonempty")
+        } else {
+            *[Class::Authentic, Class::Authentic, Class::Unsigned, Class::BadSignature, Class::ForeignOwner, Class::Garbage].choose(&mut cx.rng).expect("nonempty")
+        };
+        let plaintext: Vec<u8> = format!("version-{i}-{}", hex(&gen::bytes(&mut cx.rng, 6))).into_bytes();
+        let counter = match class {
+            Class::Authentic => base + cx.rng.gen_range(0..6),
+            _ => *[base + 50, u64::MAX, base, 0].choose(&mut cx.rng).expect("nonempty"),
+        };
+        let cipher = owner.public_key().encrypt_with_rng(&mut cx.rng, &plaintext).to_bytes();
+        let value = match class {
+            Class::Authentic => gen::pad_record(&gen::pad(&owner, counter, &cipher, 7)).value,
+            Class::Unsigned => {
+                let mut raw = gen::RawPad::from_pad(&gen::pad(&owner, counter, &cipher, 7));
+                raw.signature = None;
+                gen::pad_record(&raw.to_pad()).value
+            }
+            Class::BadSignature => {
+                let mut raw = gen::RawPad::from_pad(&gen::pad(&owner, counter, &cipher, 7));
+                raw.sign(&foreign);
+                gen::pad_record(&raw.to_pad()).value
+            }
+            Class::ForeignOwner => gen::pad_record(&gen::pad(&foreign, counter, &cipher, 7)).value,
+            Class::Garbage => gen::bytes_r(&mut cx.rng, 0, 80),
+        };
+        versions.push((class, counter, plaintext, value));
+    }
+    let mut assign: Vec<Option<usize>> = vec![];
+    for _ in 0..n {
+        assign.push(if cx.rng.gen_bool(0.15) { None } else { Some(cx.rng.gen_range(0..nver)) });
+    }
+    for (i, a) in assign.iter().enumerate() {
+        if let Some(v) = a {
+            if let Err(e) = net.seed_raw(i, gen::record(key.clone(), versions[*v].3.clone())) {
+                cx.count("realnet:abandoned:harness-error");
+                cx.log(e);
+                return None;
+            }
+        }
+    }
+    let held: BTreeSet<usize> = assign.iter().flatten().cloned().collect();
+    let best_authentic = held.iter().filter(|v| versions[**v].0 == Class::Authentic).map(|v| versions[*v].1).max();
+    let client = autonomi::Client::verif_new(net.client.clone(), net.stub.evm_network());
+    let sk = owner.clone();
+    let got = net.ctl.block_on(async move { tokio::time::timeout(Duration::from_secs(120), client.fetch_and_decrypt_vault(&sk)).await });
+    cx.eval();
+    let w = json!({"holders": n, "held": assign.iter().map(|a| a.map(|v| format!("{:?}#{}", versions[v].0, versions[v].1))).collect::<Vec<_>>()});
+    match got {
+        Err(_) => {
+            cx.count("realnet:abandoned:read-watchdog");
+            return None;
+        }
+        Ok(Ok((bytes, _))) => match versions.iter().position(|v| v.2 == bytes.as_ref()) {
+            None => cx.violation("realnet:vault-returned-unknown-content", format!("{} bytes that no holder holds", bytes.len()), w),
+            Some(vi) if versions[vi].0 != Class::Authentic => cx.violation(format!("realnet:vault-returned-unauthenticated-version:{:?}", versions[vi].0), format!("counter {}", versions[vi].1), w),
+            Some(_) => cx.count("realnet:vault-reads-ok-authentic"),
+        },
+        Ok(Err(_)) => {
+            cx.count("realnet:vault-reads-err");
+            if best_authentic.is_none() {
+                cx.count("realnet:vault-reads-err-with-no-authentic-version-held");
+            }
+        }
+    }
+    if held.iter().any(|v| versions[*v].0 != Class::Authentic) {
+        cx.nontrivial(&("vault-realnet", cx.index, n, format!("{assign:?}")));
+    }
+    cx.sample(json!({"lane": "real network", "holders": n, "versions": versions.iter().map(|v| format!("{:?}#{}", v.0, v.1)).collect::<Vec<_>>()}));
     Some(())
 }
